@@ -6,7 +6,7 @@
    relates the two parser models textX builds for one grammar (autokwd off / on), as dumped by
    tools/pegdump.py, for EVERY pair of tables, text, oracles, fuel and memoization setting. *)
 From TxV Require Import Core.Base Model.PegSyntax Model.Peg Model.KwDefs Gen.SrcKw Model.Kw
-     Proofs.PegCongr Proofs.KwProofs Proofs.KwCheckProofs Proofs.KwWitness Proofs.KwStatements.
+     Proofs.PegCongr Proofs.PegInv Proofs.KwProofs Proofs.KwCheckProofs Proofs.KwInv Proofs.KwWitness Proofs.KwStatements.
 
 (* (0) The facts of the current source are the ones the model transcribes. *)
 Theorem C21_source_is_modelled :
@@ -38,6 +38,37 @@ Theorem C21_boundary : forall wordc digitc lower icase t input p,
      then Some (length t) else None).
 Proof. exact stmt_C21_boundary. Qed.
 Print Assumptions C21_boundary.
+
+(* (2') The same at parse level, as an invariant of parse trees.  First the general form: if every
+   terminal that a node can produce satisfies a predicate [pt] on (node id, position, length), then
+   every terminal of every accepted parse does - for every table, text, oracle, fuel, memoization. *)
+Theorem C21_terminal_invariant : forall pt g input orc memo,
+  (forall nid nd psq s r s',
+      get_node g nid = Some nd -> term_parse input orc nid (n_kind nd) psq s = Ok r s' ->
+      res_okb pt r = true) ->
+  forall cfg fuel r, run g cfg orc memo fuel input = Parsed r ->
+  forall nid p len, In (nid, p, len) (res_terminals r) -> pt nid p len = true.
+Proof. exact stmt_C21_terminal_invariant. Qed.
+Print Assumptions C21_terminal_invariant.
+
+(* ... and the instance: [kwt] designates keyword-regex nodes (node id -> literal, ignore_case flag) whose
+   oracle is <literal>\b of a keyword-like literal; then in every accepted parse no terminal of a
+   designated node is immediately followed by a word character of the text. *)
+Theorem C21_boundary_parse : forall wordc digitc lower kwt g cfg orc memo fuel input r,
+  (forall a b, lower a = lower b -> wordc a = wordc b) ->
+  kw_oracle_spec wordc digitc lower kwt g input orc ->
+  run g cfg orc memo fuel input = Parsed r ->
+  forall nid p len, In (nid, p, len) (res_terminals r) -> kwt nid <> None ->
+                    word_at wordc input (p + len) = false.
+Proof. exact kw_boundary_parse. Qed.
+Print Assumptions C21_boundary_parse.
+
+Example C21_boundary_parse_nonvacuous :
+  kw_oracle_spec ascii_word ascii_digit ascii_lower kwt_in g_in_kw in_in1 (orc_of tbl_in1_kw) /\
+  exists r, run g_in_kw cfg_default (orc_of tbl_in1_kw) false 50 in_in1 = Parsed r /\
+            In (4, 0, 2) (res_terminals r) /\ word_at ascii_word in_in1 (0 + 2) = false.
+Proof. exact stmt_C21_boundary_parse_nonvacuous. Qed.
+Print Assumptions C21_boundary_parse_nonvacuous.
 
 (* (3) Literals that do not look like identifiers compile to the same terminal with and without
    autokwd ... *)
